@@ -5,7 +5,7 @@ from vlib.purity import purity_step, PURITY_RULES
 CHECK = Check(
     "C14",
     props_modules=["OW.Props.C14", "OW.Props.C14Prefix"],
-    families=[Family("KHIST", rtol=1e-9, atol_scale=1e-12, tol_by_model=TOL_BY_MODEL, args=["models=" + ",".join(ALL_MODELS), "n=8"] + EXTRA_ARGS)],
+    families=[Family("KHIST", rtol=1e-9, atol_scale=1e-12, tol_by_model=TOL_BY_MODEL, args=["models=" + ",".join(ALL_MODELS), "n=24"] + EXTRA_ARGS)],
     # regenerated structural fact: no function reachable from a kernel assigns a package-level variable or calls a method of one
     # (cache objects, sync.Map, pools) — "no information survives in package-level variables" decided on the source, not only on sampled histories
     pre_steps=[purity_step(PURITY_RULES, "C14")],
